@@ -157,20 +157,35 @@ Proof.
   lia.
 Qed.
 
-Lemma deliver_all_excess_any g emitfrom depth n x m :
+(* one turn of the loop of _emit: the hand-over, or the release alone for a child that left since the snapshot (a slice
+   that finished during an earlier hand-over of this same emission: with feedback edges that does happen) *)
+Lemma hand_excess_any g emitfrom depth n x m d w w' :
+  ExcessAny g (emitfrom d) -> state_first (nkind (gnode g d)) -> WInv g w ->
+  is_down g n d = true ->
+  hand emitfrom g depth n x m (w, SOk) d = (w', SOk) ->
+  WInv g w' /\ forall r, excess g w' r = (excess g w r - occ m r)%Z.
+Proof.
+  intros HX Hsf Hwi Hdn H.
+  destruct (hand_cases emitfrom g depth n x m w SOk d) as [E|[_ [_ E]]]; rewrite E in H.
+  - eapply deliver_excess_any; eauto.
+  - injection H as <-. split; [apply WInv_release; exact Hwi|].
+    intros r. unfold excess. rewrite cnt_release, holders_release. lia.
+Qed.
+
+Lemma hand_all_excess_any g emitfrom depth n x m :
   all_state_first g -> (forall d, ExcessAny g (emitfrom d)) ->
   forall l w w', WInv g w -> (forall d, In d l -> is_down g n d = true) ->
-  fold_left (deliver emitfrom g depth n x m) l (w, SOk) = (w', SOk) ->
+  fold_left (hand emitfrom g depth n x m) l (w, SOk) = (w', SOk) ->
   WInv g w' /\ forall r, excess g w' r = (excess g w r - Z.of_nat (length l) * occ m r)%Z.
 Proof.
   intros Hsf HX. induction l as [|d t IH]; intros w w' Hwi Hl H; cbn [fold_left] in H.
   - injection H as <-. split; [exact Hwi|]. intros r. cbn. lia.
-  - destruct (deliver emitfrom g depth n x m (w, SOk) d) as [w1 s1] eqn:E1.
-    pose proof (deliver_ok_inv _ _ _ _ _ _ _ _ _ _ H) as ->.
+  - destruct (hand emitfrom g depth n x m (w, SOk) d) as [w1 s1] eqn:E1.
+    pose proof (hand_ok_inv _ _ _ _ _ _ _ _ _ _ H) as ->.
     pose proof (Hl d (or_introl eq_refl)) as Hdn.
     assert (Hk : state_first (nkind (gnode g d))).
     { apply state_first_ok. apply Hsf. apply (is_down_In _ _ _ Hdn). }
-    destruct (deliver_excess_any _ _ _ _ _ _ _ _ _ (HX d) Hk Hwi Hdn E1) as [A1 B1].
+    destruct (hand_excess_any _ _ _ _ _ _ _ _ _ (HX d) Hk Hwi Hdn E1) as [A1 B1].
     destruct (IH w1 w' A1 (fun d' Hd' => Hl d' (or_intror Hd')) H) as [A2 B2].
     split; [exact A2|]. intros r. rewrite B2, B1. cbn [length]. lia.
 Qed.
@@ -179,7 +194,7 @@ Lemma push_excess_any g : all_state_first g ->
   forall fuel depth n, ExcessAny g (push fuel g depth n).
 Proof.
   intros Hsf. induction fuel as [|fuel IH]; intros depth n w y my w' Hwi H; cbn [push] in H; [discriminate|].
-  destruct (deliver_all_excess_any g (fun d => push fuel g (S depth) d) depth n y my Hsf
+  destruct (hand_all_excess_any g (fun d => push fuel g (S depth) d) depth n y my Hsf
               (fun d => IH (S depth) d) (downs g w n) _ w' (WInv_retain _ _ _ _ Hwi)
               (fun dd Hdd => downs_is_down _ _ _ _ Hdd) H) as [A B].
   split; [exact A|]. intros r. rewrite B. unfold excess. rewrite cnt_retain, holders_retain. lia.
